@@ -7,7 +7,9 @@ admissible spelling (dotted string, Path with T chunks, pure T, S-rooted), ignor
 `computed`: the same paths with T[...] arguments that are computed over the target (T expression, Spec, Val, scope
 variable) in the final and in middle positions.  `refuse`: a catalogue of present attributes whose deletion Python refuses
 with AttributeError (frozen dataclass, property without deleter, namedtuple field, read-only builtin attribute, sealing
-__delattr__) and absent attributes of the same objects, in T.attr, Path and string addressing.
+__delattr__) and absent attributes of the same objects, in T.attr, Path and string addressing.  `refuseitem`: the same for
+item parents - list / dict subclasses and Glommer-registered sequence- and mapping-likes whose __delitem__ refuses every
+deletion or that of pinned elements with a non-LookupError, addressed by the text of the index, the index, T[...].
 
 Oracle: Python's `del` on an independently built copy.
 """
@@ -489,6 +491,327 @@ def check_refuse(recipe, ctx):
 
 
 # ---------------------------------------------------------------------------
+# refusals of ITEM deletions: a sequence or mapping parent whose __delitem__ refuses (every deletion: a frozen container;
+# or the deletion of some pinned elements only) with an exception that is no LookupError.  The element is addressed in
+# every style: the TEXT of an index ('a.1', Path('a', '1'), negative ones too), the index itself (Path('a', 1)), T[...];
+# mapping keys that are texts of integers and the integers themselves.  A present element (plain Python reads it) whose
+# deletion raises is neither deleted nor missing: some exception, with and without ignore_missing, target unchanged.
+# An absent element of a container that looks at the index first (LookupError) is missing: PathDeleteError, or ignored.
+# Reference: item read / del on an independently built holder; the text of an index denotes the index ("deleting ...
+# indexes of sequences", Delete('dict.x.1') in the docstring).
+
+class Refused(Exception):
+    """a refusal class of the container's own"""
+
+
+REFUSALS = {'TypeError': TypeError, 'RuntimeError': RuntimeError, 'ValueError': ValueError, 'AttributeError': AttributeError,
+            'NotImplementedError': NotImplementedError, 'PermissionError': PermissionError, 'Refused': Refused}
+
+
+class _Guard(object):
+    """policy 'all': refuses every deletion without looking at the element (a frozen container); 'pinned': looks the
+    element up first (LookupError when absent) and refuses the pinned ones; 'none': deletes like the plain container"""
+    def _init_guard(self, policy, pinned, exc):
+        d = self.__dict__
+        d['_policy'], d['_pinned'], d['_exc'] = policy, list(pinned), exc
+
+    def _refuse(self, what):
+        raise self._exc('%s does not support deletion of %r' % (type(self).__name__, what))
+
+    def _tail(self):
+        if self._policy == 'none':
+            return ''
+        return ', refuses=%s:%s' % ('all' if self._policy == 'all' else self._pinned, self._exc.__name__)
+
+
+class GuardedList(list, _Guard):
+    def __init__(self, items, policy, pinned, exc):
+        list.__init__(self, items)
+        self._init_guard(policy, pinned, exc)
+
+    def __delitem__(self, i):
+        if self._policy == 'all':
+            self._refuse(i)
+        pos = range(len(self))[i]       # IndexError: no such element
+        if pos in self._pinned:
+            self._refuse(i)
+        list.__delitem__(self, i)
+
+    def __repr__(self):
+        return 'GuardedList(%s%s)' % (list.__repr__(self), self._tail())
+
+
+class GuardedDict(dict, _Guard):
+    def __init__(self, pairs, policy, pinned, exc):
+        dict.__init__(self, [(k, v) for k, v in pairs])
+        self._init_guard(policy, pinned, exc)
+
+    def __delitem__(self, k):
+        if self._policy == 'all':
+            self._refuse(k)
+        if not dict.__contains__(self, k):
+            raise KeyError(k)
+        if any(type(p) is type(k) and p == k for p in self._pinned):
+            self._refuse(k)
+        dict.__delitem__(self, k)
+
+    def __repr__(self):
+        return 'GuardedDict(%s%s)' % (dict.__repr__(self), self._tail())
+
+
+class GuardedSeq(_Guard):
+    """sequence-like and no list: index read, index deletion, .index(); registered on a Glommer with get= only"""
+    def __init__(self, items, policy, pinned, exc):
+        self.items = list(items)
+        self._init_guard(policy, pinned, exc)
+
+    def __getitem__(self, i):
+        return self.items[i]
+
+    def __len__(self):
+        return len(self.items)
+
+    def index(self, v):
+        return self.items.index(v)
+
+    def __delitem__(self, i):
+        if self._policy == 'all':
+            self._refuse(i)
+        pos = range(len(self.items))[i]
+        if pos in self._pinned:
+            self._refuse(i)
+        del self.items[i]
+
+    def __repr__(self):
+        return 'GuardedSeq(%r%s)' % (self.items, self._tail())
+
+
+class GuardedMap(_Guard):
+    """mapping-like and no dict: key read and key deletion; registered on a Glommer with get= only"""
+    def __init__(self, pairs, policy, pinned, exc):
+        self.data = dict([(k, v) for k, v in pairs])
+        self._init_guard(policy, pinned, exc)
+
+    def __getitem__(self, k):
+        return self.data[k]
+
+    def __delitem__(self, k):
+        if self._policy == 'all':
+            self._refuse(k)
+        if k not in self.data:
+            raise KeyError(k)
+        if any(type(p) is type(k) and p == k for p in self._pinned):
+            self._refuse(k)
+        del self.data[k]
+
+    def __repr__(self):
+        return 'GuardedMap(%r%s)' % (self.data, self._tail())
+
+
+ITEM_HOLDERS = {'lsub': GuardedList, 'useq': GuardedSeq, 'dsub': GuardedDict, 'umap': GuardedMap}
+SEQ_HOLDERS = ('lsub', 'useq')
+MAP_KEYS = ['k', 'j', '1', 1, '0', 0, '-1', -1]
+ITEM_ADDRS = {'P-text': ['str', 'str', 'path', 'path', 'mixed-p'], 'P-lit': ['path', 'mixed-p'], 'T': ['t', 't', 'path-t', 'mixed-t']}
+
+
+def gen_refuseitem(draw):
+    """the case is constructed towards a drawn outcome (the check does not read it: it asks the reference)"""
+    holder = draw(st.sampled_from(['lsub', 'lsub', 'useq', 'dsub', 'umap']))
+    seq = holder in SEQ_HOLDERS
+    n = draw(st.sampled_from([1, 2, 3, 4]))
+    want = draw(st.sampled_from(['refused', 'refused', 'refused', 'ok', 'missing', 'fault-absent']))
+    values = [[10 + i] if draw(st.integers(0, 5)) == 0 else 10 + i for i in range(n)]
+    if seq:
+        keys, content = list(range(n)), values
+    else:
+        keys = draw(st.lists(st.sampled_from(MAP_KEYS), min_size=n, max_size=n, unique_by=repr))
+        content = [[k, v] for k, v in zip(keys, values)]
+    if want in ('refused', 'ok'):
+        pos = draw(st.sampled_from(range(n)))
+        seg = keys[pos]
+        if seq and draw(st.booleans()):
+            seg = pos - n                   # the same element, counted from the end
+        others = [k for k in keys if k != keys[pos] or type(k) is not type(keys[pos])]
+        extra = [k for k in others if draw(st.booleans())]
+        if want == 'refused':
+            policy, pinned = draw(st.sampled_from([('all', []), ('pinned', [keys[pos]] + extra)]))
+        else:
+            policy, pinned = draw(st.sampled_from([('none', []), ('pinned', extra)]))
+    else:
+        if seq:
+            seg = draw(st.sampled_from([n, n + 1, -n - 1, 2 * n, -2 * n - 1]))
+        else:
+            seg = draw(st.sampled_from([k for k in MAP_KEYS + ['zz', 7, '7']
+                                        if not any(type(k) is type(q) and k == q for q in keys)]))
+        if want == 'fault-absent':
+            policy, pinned = 'all', []
+        else:
+            policy, pinned = draw(st.sampled_from([('none', []), ('pinned', [k for k in keys if draw(st.booleans())])]))
+    # how the final step is spelled: the text of the index / key, the index / key itself, or T[...]
+    form = draw(st.sampled_from(['P-text', 'P-text', 'P-text', 'P-lit', 'T', 'T'] if seq else ['P', 'P', 'T']))
+    if form == 'P-text':
+        final = ['P', str(seg)]
+    elif form == 'T':
+        final = ['[', seg]
+    else:
+        final = ['P', seg]
+        form = 'P-text' if isinstance(seg, str) else 'P-lit'
+    return {'holder': holder, 'content': content, 'policy': policy, 'pinned': pinned,
+            'exc': draw(st.sampled_from(sorted(REFUSALS))), 'final': final,
+            'wrap': draw(st.sampled_from(['root', 'dict', 'dict', 'list', 'obj'])),
+            'addr': draw(st.sampled_from(ITEM_ADDRS[form])),
+            'ignore_missing': draw(st.sampled_from([True, True, False])),
+            'api': draw(st.sampled_from(['func', 'spec']))}
+
+
+def _wrap_holder(w, h):
+    if w == 'root':
+        return h, None
+    if w == 'dict':
+        return {'a': h, 'b': 1}, ('[', 'a')
+    if w == 'list':
+        return [0, h], ('[', 1)
+    return tg.Obj(a=h, b=1), ('.', 'a')
+
+
+def _item_target(recipe):
+    import copy
+    try:
+        h = ITEM_HOLDERS[recipe['holder']](copy.deepcopy(recipe['content']), recipe['policy'], recipe['pinned'],
+                                           REFUSALS[recipe['exc']])
+    except Exception as e:
+        raise HarnessBug('cannot build the holder of %r: %r' % (recipe, e))
+    target, up = _wrap_holder(recipe['wrap'], h)
+    return target, h, up
+
+
+def _item_path(up, fop, fseg, addr):
+    from glom import Path, T
+    if up is None:
+        tup, pre = T, ()
+    else:
+        tup, pre = (T[up[1]] if up[0] == '[' else getattr(T, up[1])), (up[1],)
+    if fop == '[':
+        if addr == 't':
+            return tup[fseg]
+        if addr == 'path-t':
+            return Path(tup[fseg])
+        if addr == 'mixed-t':
+            return Path(*(pre + (T[fseg],)))
+    else:
+        if addr == 'str' and isinstance(fseg, str):
+            return '.'.join([str(p) for p in pre] + [fseg])
+        if addr == 'path':
+            return Path(*(pre + (fseg,)))
+        if addr == 'mixed-p':
+            return Path(fseg) if up is None else Path(tup, fseg)
+    raise HarnessBug('final step %r cannot be spelled as %r' % ((fop, fseg), addr))
+
+
+def check_refuseitem(recipe, ctx):
+    from glom import Glommer
+    holder, ign, addr = recipe['holder'], recipe['ignore_missing'], recipe['addr']
+    fop, fseg = recipe['final']
+    seq = holder in SEQ_HOLDERS
+    text_index = seq and fop == 'P' and isinstance(fseg, str)
+    # reference: plain Python on an independently built holder; the text of an index denotes the index
+    try:
+        idx = int(fseg) if (seq and fop == 'P') else fseg
+    except ValueError:
+        raise HarnessBug('a sequence is addressed by a text that is no index: %r' % (recipe,))
+    rt, rh, _ = _item_target(recipe)
+    rpos_before = mc.positions(rt)
+    try:
+        rh[idx]
+        present = True
+    except LookupError:
+        present = False
+    try:
+        del rh[idx]
+        refusal = None
+    except Exception as e:
+        refusal = e
+    if (refusal is None and not present) or (present and isinstance(refusal, LookupError)):
+        raise HarnessBug('holder out of its own model (present=%r, del: %r): %r' % (present, refusal, recipe))
+    if refusal is None:
+        exp = 'ok'
+    elif present:
+        exp = 'refused'
+    else:
+        # a container that refuses before it looks at the index: "deleting from an immutable parent is a fault"
+        exp = 'missing' if isinstance(refusal, LookupError) else 'fault-absent'
+    target, h, up = _item_target(recipe)
+    path = _item_path(up, fop, fseg, addr)
+    final = 'final-text-index' if text_index else ('final-T' if fop == '[' else 'final-P')
+    ctx.nontrivial(True)
+    ctx.label('exp-' + exp, 'holder-' + holder, 'addr-' + addr, 'ignore' if ign else 'strict', final,
+              'policy-' + recipe['policy'], 'wrap-' + recipe['wrap'])
+    if ign:
+        ctx.label('ignore-' + exp)
+    if exp == 'refused':
+        ctx.label('refusal-' + recipe['exc'])
+        if ign:
+            ctx.label('ignore-refused-' + final, 'ignore-refused-' + ('seq' if seq else 'map'))
+    if text_index and idx < 0:
+        ctx.label('negative-text-index')
+    where = 'delete(%r, %r, ignore_missing=%r)' % (target, path, ign)
+    before = tg.snapshot(target)
+    pos_before = mc.positions(target)
+    try:
+        if holder in ('useq', 'umap'):
+            g = Glommer()
+            g.register(ITEM_HOLDERS[holder], get=(lambda o, k: o[int(k)]) if seq else (lambda o, k: o[k]))
+            where = 'Glommer with %s registered (get= only): %s' % (ITEM_HOLDERS[holder].__name__, where)
+            spec = Delete(path, ignore_missing=ign)
+            res = g.glom(target, (spec,) if recipe['api'] == 'spec' else spec)
+        elif recipe['api'] == 'spec':
+            res = glom.glom(target, (Delete(path, ignore_missing=ign),))
+        else:
+            res = glom.delete(target, path, ignore_missing=ign)
+        err = None
+    except Exception as e:
+        err = e
+    if exp == 'ok':
+        if err is not None:
+            raise Mismatch('spurious-error', '%s: the element exists and del succeeds; glom raised %s: %r'
+                           % (where, type(err).__name__, getattr(err, 'args', err)))
+        if res is not target:
+            raise Mismatch('wrong-return', '%s: must return the same object, got %r' % (where, res))
+        if tg.structure(target) != tg.structure(rt):
+            raise Mismatch('wrong-effect', '%s: expected %r, got %r' % (where, rt, target))
+        pos_after, rpos_after = mc.positions(target), mc.positions(rt)
+        for pos, oid in rpos_before.items():
+            if rpos_after.get(pos) == oid and pos_after.get(pos) != pos_before.get(pos):
+                raise Mismatch('frame', '%s: object at position %r was replaced or lost' % (where, pos))
+        ctx.outcome([exp, holder, recipe['final']])
+        return
+    unchanged = tg.snapshot_diff(before, tg.snapshot(target))
+    if unchanged:
+        raise Mismatch('not-atomic', '%s: nothing deleted (%s) but the target changed: %s' % (where, exp, unchanged))
+    if exp == 'refused':
+        # present and del raises: an error in every addressing style, with and without ignore_missing (class not constrained)
+        if err is None:
+            raise Mismatch('refused-delete-reported-as-success' if ign else 'missing-error',
+                           '%s: the element is present (plain Python reads it) and del raises %r; glom returned normally '
+                           'and the element is still there' % (where, refusal))
+    elif exp == 'fault-absent':
+        # a fault, not a missing element: some exception; what ignore_missing makes of it is not constrained
+        if err is None and not ign:
+            raise Mismatch('missing-error', '%s: del raises %r; glom returned normally' % (where, refusal))
+    elif ign:
+        if err is not None:
+            raise Mismatch('ignore-missing-not-honoured', '%s: the element is absent (read and del both raise: %r), '
+                           'ignore_missing=True, glom raised %s: %r' % (where, refusal, type(err).__name__, getattr(err, 'args', err)))
+        if res is not target:
+            raise Mismatch('wrong-return', '%s: must return the target' % where)
+    else:
+        if not isinstance(err, PathDeleteError):
+            raise Mismatch('wrong-error-class' if err is not None else 'missing-error',
+                           '%s: the element is absent: expected PathDeleteError, got %r' % (where, err))
+    ctx.outcome([exp, holder, recipe['final'], type(err).__name__ if err is not None else None])
+
+
+# ---------------------------------------------------------------------------
 # user containers registered on a Glommer without a delete= handler: the handler is discovered from the type
 
 class EvictOnly(object):
@@ -615,6 +938,14 @@ SUBS = [
                 'holder-frozen': 0.03, 'holder-roprop': 0.03, 'holder-setteronly': 0.03, 'holder-sealed': 0.03,
                 'holder-ntuple': 0.03, 'holder-float': 0.03, 'holder-complex': 0.03, 'holder-range': 0.03,
                 'holder-slice': 0.03, 'addr-str': 0.07, 'addr-path': 0.06, 'addr-t': 0.07}),
+    Sub('refuseitem', check_refuseitem, gen=gen_refuseitem, quick=800, thorough=3000,
+        floors={'ignore-refused-final-text-index': 0.06, 'ignore-refused-final-P': 0.08, 'ignore-refused-final-T': 0.03,
+                'ignore-refused-seq': 0.1, 'ignore-refused-map': 0.07, 'negative-text-index': 0.04,
+                'exp-ok': 0.06, 'exp-missing': 0.055, 'ignore-missing': 0.045, 'exp-fault-absent': 0.08,
+                'holder-lsub': 0.14, 'holder-useq': 0.08, 'holder-dsub': 0.09, 'holder-umap': 0.12, 'policy-pinned': 0.13,
+                'addr-str': 0.13, 'addr-path': 0.15, 'addr-t': 0.04,
+                'refusal-TypeError': 0.012, 'refusal-RuntimeError': 0.02, 'refusal-ValueError': 0.018,
+                'refusal-AttributeError': 0.06, 'refusal-Refused': 0.012}),
     Sub('wild', check_wild, gen=gen_wild, quick=1500, thorough=5000, floors={'wild-2': 0.1, 'wild-3': 0.1}),
     Sub('registered', check_registered, gen=gen_registered, quick=300, thorough=1000),
 ]
